@@ -844,6 +844,171 @@ def case_count(v, info, K, tier):
     return base
 
 
+# ------------------------------------------------------------------------------------------------ branch accounting
+# Mirrors of the case splits of the code (and of the proofs), used ONLY to record in the evidence which branches the
+# generated cases reached; they never decide a verdict.
+def _udiv_half_corr(r, npart, d):
+    HBv = 1 << 32
+    d1, d0 = d >> 32, d & (HBv - 1)
+    q = r // d1
+    r1 = (r - q * d1) * HBv + npart
+    m = q * d0
+    if r1 >= m:
+        return 0, (r1 - m)
+    r1 += d
+    if r1 >= W64:
+        return 1, (r1 - m)            # the addition wrapped: one correction, "carry" exit
+    if r1 >= m:
+        return 1, (r1 - m)
+    return 2, (r1 + d - m)
+
+
+def udiv_branches(n1, n0, d):
+    c1, r1 = _udiv_half_corr(n1, n0 >> 32, d)
+    c0, _ = _udiv_half_corr(r1 % W64, n0 & 0xFFFFFFFF, d)
+    return ["udiv.high-half:%d-corrections" % c1, "udiv.low-half:%d-corrections" % c0]
+
+
+def div32_branches(beta, a2, a1, a0, b1, b0, limb):
+    out = []
+    if a2 < b1:
+        out.append("div_3_2:estimate-by-2-by-1")
+        if limb:
+            out += udiv_branches(a2, a1, b1)
+    else:
+        out.append("div_3_2:q=B-1" + ("+carry" if a1 + b1 >= beta else ""))
+    out.append("div_3_2:%d-corrections" % d32_corrections(beta, a2, a1, a0, b1, b0))
+    return out
+
+
+def shift_branch(K, d, ext=False):
+    if K == 6 and not ext:
+        return "limb:d=0" if d == 0 else "limb:d<64" if d < 64 else "limb:d>=64"
+    nb = (1 << K) if ext else (1 << (K - 1))
+    if d == 0:
+        return "d=0"
+    if d == 1 and not ext:
+        return "d=1"
+    if d > 2 * nb:
+        return "d>size"
+    return "defect>0" if d < nb else "defect<0" if d > nb else "defect=0"
+
+
+def kara_flags(K, b, c):
+    h = 1 << (K - 1)
+    Bh = 1 << h
+    bl, bh, cl, ch = b % Bh, b >> h, c % Bh, c >> h
+    rb, rc = (bh + bl) >= Bh, (ch + cl) >= Bh
+    mid = bh * cl + bl * ch
+    r = mid >> (2 * h)
+    al = bl * cl
+    rt5 = ((al >> h) + (mid % Bh)) >= Bh
+    return ["kara:rb=%d,rc=%d" % (rb, rc), "kara:r=%d" % r, "kara:rt5=%d" % rt5]
+
+
+def euclid_steps(a, b):
+    n = 0
+    while b:
+        a, b = b, a % b
+        n += 1
+    return n
+
+
+def branches_of(v, spec, K, a):
+    n = 1 << K
+    Bk = 1 << n
+    out = []
+    if spec in ("add", "add_wc", "add_w", "add_1"):
+        s_ = a[0] + (a[1] if len(a) > 1 else 1) + (1 if spec == "add_wc" and a[2] else 0)
+        out.append("carry-out=%d" % (s_ >= Bk))
+        if spec == "add_wc" and a[2] and K >= 7 and any(((a[1] >> (128 * j)) & ((1 << 128) - 1)) == (1 << 128) - 1 for j in range(n // 128)):
+            out.append("add_wc<7>:carry-in and an all-ones 128-bit block (a == b test)")
+        if spec in ("add_1", "add_w") and a[0] % Bk >= Bk - (1 << 64):
+            out.append("carry chain through every limb")
+    elif spec in ("sub", "sub_wc", "sub_w", "sub_1"):
+        s_ = a[0] - (a[1] if len(a) > 1 else 1) - (1 if spec == "sub_wc" and a[2] else 0)
+        out.append("borrow-out=%d" % (s_ < 0))
+        if spec in ("sub_1", "sub_w") and a[0] < (1 << 64) and s_ < 0:
+            out.append("borrow chain through every limb")
+    elif spec in ("shl", "shr", "sshr"):
+        out.append(shift_branch(K, a[1]))
+    elif spec == "shl_ext":
+        out.append(shift_branch(K, a[1], ext=True))
+    elif spec == "lmul" and K >= 7 and (v.startswith("lmul_kara") or (v.startswith("lmul.") and K >= 10)):
+        out += kara_flags(K, a[0], a[1])
+    elif spec in ("mul", "square") and K >= 11:
+        h = 1 << (K - 1)
+        out += kara_flags(K - 1, a[0] % (1 << h), a[-1] % (1 << h))
+        if v in ("mul.ab", "mul.op*=", "mul.alias", "mul.alias2", "mul.self"):
+            out.append("in-place product through lmul_kara")
+    elif spec == "div32":
+        out += div32_branches(Bk, *a, limb=(K == 6))
+    elif spec == "div21":
+        if K == 6:
+            out += udiv_branches(a[0], a[1], a[2])
+        else:
+            hb = 1 << (n // 2)
+            b1, b0 = a[2] // hb, a[2] % hb
+            hi = a[0] * hb + a[1] // hb
+            out += div32_branches(hb, hi // (hb * hb), (hi // hb) % hb, hi % hb, b1, b0, limb=(K == 7))
+            s_ = hi % a[2]
+            out += ["second:" + x for x in div32_branches(hb, s_ // hb, s_ % hb, a[1] % hb, b1, b0, limb=(K == 7))]
+    elif spec in ("div", "divr", "sdiv_q", "sdiv_r", "mod_n") and len(a) > 1 and a[1]:
+        bb = a[1] if spec not in ("sdiv_q", "sdiv_r") else abs(sval(a[1], K))
+        if bb:
+            d = n - bb.bit_length()
+            out.append("normalisation shift " + ("0" if d == 0 else "1..63" if d < 64 else ">=64 (zero top limbs)"))
+        if spec in ("sdiv_q", "sdiv_r"):
+            out.append("signs a%s b%s" % ("<0" if sval(a[0], K) < 0 else ">=0", "<0" if sval(a[1], K) < 0 else ">0"))
+    elif spec == "exp_mod":
+        if v == "exp_mod.abcn":
+            out.append("exponent " + ("with a zero limb below a non-zero limb" if has_interior_zero_limb(a[1]) else
+                                      "of one limb" if a[1] < W64 else "with all limbs non-zero up to the top"))
+        if a[2] == 1:
+            out.append("modulus 1")
+        if a[1] == 0:
+            out.append("exponent 0")
+    elif spec == "gcd":
+        st = euclid_steps(a[0], a[1])
+        out.append("euclid steps " + ("0" if st == 0 else "1-2" if st <= 2 else "<=2^K" if st <= n else ">2^K"))
+    elif spec in ("inv_mod", "bezout_mod", "sinv_mod"):
+        out.append("modulus " + (">= B/2 (carry out of the reduction sum possible)" if a[1] >= Bk // 2 else "< B/2"))
+    elif spec == "arazi_qi":
+        out.append("low limb " + ("= 1" if a[0] % W64 == 1 else "> 1"))
+    elif spec in ("lsquare", "slsquare") and K >= 7:
+        h = 1 << (K - 1)
+        x = a[0] if spec == "lsquare" else abs(sval(a[0], K))
+        m = (x >> h) * (x % (1 << h))
+        out.append("lsquare:rbb=%d" % (m >> (2 * h - 1)))
+    elif spec in ("scmp", "slmul", "sext", "rint_to_mpz", "smod_n", "smod_n1"):
+        out.append("a" + ("<0" if sval(a[0], K + (1 if spec in ("smod_n",) else 0)) < 0 else ">=0"))
+    elif spec == "norm":
+        z = (n - a[0].bit_length()) // 64
+        out.append("zero top limbs: " + ("0" if z == 0 else "some" if a[0] else "all"))
+    elif spec in ("mpz_to_ruint", "mpz_to_rint"):
+        out.append("input " + ("negative" if a[0] < 0 else "wider than 2^K bits" if a[0] >= Bk else "fits"))
+    if any(has_interior_zero_limb(x) for x in a if x > 0):
+        out.append("some operand has a zero limb below a non-zero limb")
+    return out
+
+
+# branches that every run is expected to reach (reported in the evidence when a run misses one)
+EXPECTED_BRANCHES = [
+    ("div32", "div_3_2:2-corrections"), ("div32", "div_3_2:1-corrections"), ("div32", "div_3_2:0-corrections"),
+    ("div32", "div_3_2:q=B-1"), ("div32", "div_3_2:q=B-1+carry"), ("div32", "udiv.high-half:1-corrections"),
+    ("div32", "udiv.low-half:1-corrections"), ("div21", "second:div_3_2:2-corrections"),
+    ("exp_mod", "exponent with a zero limb below a non-zero limb"), ("exp_mod", "modulus 1"),
+    ("shl", "defect>0"), ("shl", "defect<0"), ("shl", "defect=0"), ("shl", "d>size"), ("shl", "d=1"), ("shl", "limb:d>=64"),
+    ("shr", "defect>0"), ("shr", "defect<0"), ("shr", "defect=0"), ("shr", "d>size"), ("shl_ext", "defect=0"),
+    ("lmul", "kara:rb=1,rc=1"), ("lmul", "kara:rb=0,rc=1"), ("lmul", "kara:r=1"), ("lmul", "kara:rt5=1"),
+    ("mul", "in-place product through lmul_kara"),
+    ("add_wc", "add_wc<7>:carry-in and an all-ones 128-bit block (a == b test)"),
+    ("add_1", "carry chain through every limb"), ("sub_1", "borrow chain through every limb"),
+    ("gcd", "euclid steps >2^K"), ("inv_mod", "modulus >= B/2 (carry out of the reduction sum possible)"),
+    ("sdiv_q", "signs a<0 b<0"), ("sshr", "defect>0"), ("arazi_qi", "low limb = 1"), ("lsquare", "lsquare:rbb=1"),
+]
+
+
 def extra_count(v, info, K, tier):
     """additional cases compared with the specification oracle only (the model run would dominate the time): the
     implementation is exercised at every K on many more operands than the model can follow"""
@@ -990,6 +1155,7 @@ def main(tier, replay=None):
     ncorr = 0
     nspec = 0
     dist = {}
+    hits = {}
     for i, (v, K, a) in enumerate(cases):
         info = VARIANTS[v]
         spec, nres = info["spec"], info["nres"]
@@ -999,6 +1165,9 @@ def main(tier, replay=None):
         extra = got[nres:]
         got = got[:nres]
         dist[spec] = dist.get(spec, 0) + 1
+        for lab in branches_of(v, spec, K, a):
+            hits.setdefault(spec, {})
+            hits[spec][lab] = hits[spec].get(lab, 0) + 1
         chk.count((v, K, tuple(a)), nontrivial=any(abs(x) > 1 for x in a))
         if i % max(1, len(cases) // 12) == 0:
             chk.sample({"variant": v, "K": K, "args": [fmt_arg(x) for x in a], "impl": iout[i], "spec": exp})
@@ -1033,4 +1202,7 @@ def main(tier, replay=None):
     chk.cov["variants_with_model"] = len([v for v in VARIANTS.values() if v["model"]])
     chk.cov["kara_threshold_from_source"] = thr
     chk.cov["distribution_by_op"] = dist
+    chk.cov["branch_hits"] = hits
+    chk.cov["expected_branches_not_hit"] = ["%s: %s" % (sp, lab) for sp, lab in EXPECTED_BRANCHES if not hits.get(sp, {}).get(lab)]
+    chk.cov["cases_without_model_run"] = len(NO_MODEL)
     return chk.finish()
